@@ -881,7 +881,11 @@ class _SliceState:
                 if isinstance(recv, ast.Call):  # super().m()
                     return ast.Name(id=self.fi.params[0], ctx=ast.Load()) if self.fi.params else None
                 return recv
-            return binding.get(p, "default")
+            a = binding.get(p, "default")
+            # typing.cast(T, x) is the identity on x
+            while isinstance(a, ast.Call) and isinstance(a.func, ast.Name) and a.func.id == "cast" and len(a.args) == 2:
+                a = a.args[1]
+            return a
 
         for s in summ.sources:
             if s[0] == "param":
